@@ -138,12 +138,17 @@ func cmdDump(args []string) {
 		os.Exit(2)
 	}
 	loadPreludeSigs(preludeSig)
-	fi, ok := p.Funcs[*fn]
-	if !ok {
-		fmt.Println("no such function")
-		os.Exit(2)
+	var g *FuncGen
+	if short, isLem := strings.CutSuffix(*fn, ".lemmas"); isLem && p.Pkgs[short] != nil {
+		g = p.genLemmas(&FuncInfo{Key: *fn, Short: "lemmas", Pkg: p.Pkgs[short]})
+	} else {
+		fi, ok := p.Funcs[*fn]
+		if !ok {
+			fmt.Println("no such function")
+			os.Exit(2)
+		}
+		g = p.genFunc(fi)
 	}
-	g := p.genFunc(fi)
 	if g.unbound != "" {
 		fmt.Println("UNBOUND:", g.unbound)
 	}
